@@ -267,8 +267,41 @@ def _expand(arg):
   return {'bad': bad[:4], 'succ': [(op, hash(e)) for op, e in succ], 'checked': n_checked, 'npos': len(positions)}
 
 
+def wiring_case(arg):
+  """The relay daemon's own wiring: DESTINATIONS as written in carbon.conf -> service.setupPipeline(['relay']) ->
+  CarbonClientManager.startClient -> router.  The ring must be the published one for the list IN THE ORDER IT IS WRITTEN
+  (collision bumps depend on it), whatever that order is."""
+  hash_type, order = arg
+  from .. import relayh
+  universe = find_universe(hash_type, 5)
+  dests = [universe[i] for i in order]
+  sysm = relayh.Relay({'max_queue': 10, 'batch': 5, 'flow': True, 'dynamic': False, 'protocol': 'pickle', 'ndest': len(dests),
+                       'dests': dests, 'relay_method': 'consistent-hashing', 'hash_type': hash_type})
+  bad = []
+  try:
+    sysm.reset()
+    from carbon import state
+    router = state.client_manager.router
+    got = [tuple(e) for e in router.ring.ring]
+    want = refring.build([(d[0], d[2]) for d in dests], hash_type)
+    if got != want:
+      diff = sorted(set(got) ^ set(want))[:4]
+      bad.append(('compat:wiring', 'relay configured with DESTINATIONS = %s builds a ring that differs from the published %s ring for that '
+                  'list in %d entries (e.g. %r)' % (', '.join(relayh.dest_str(d) for d in dests), hash_type,
+                                                  len(set(got) ^ set(want)) // 2, diff), {'wiring_order': list(order), 'hash': hash_type}))
+  finally:
+    sysm.close()
+  return len(dests), bad
+
+
 def run(ctx):
   env.boot()
+  orders = [(0, 1, 2, 3, 4), (4, 3, 2, 1, 0), (2, 0, 4, 1, 3), (1, 0), (3, 1, 0)]
+  wtasks = [(h, o) for h in HASHES for o in orders]
+  for (h, o), (n, wbad) in zip(wtasks, core.pmap(wiring_case, wtasks, fresh=True)):
+    for key, what, rep in wbad:
+      ctx.violation(key, '%s | hash=%s' % (what, h), rep)
+  ctx.add(wiring_orders=len(wtasks))
   depth = ctx.pick(5, 6)
   total_states = total_trans = checked = 0
   coll = {}
@@ -338,6 +371,13 @@ def run(ctx):
 def replay(path):
   body = json.load(open(path))
   rep = body['replay']
+  if 'wiring_order' in rep:
+    n, bad = wiring_case((rep['hash'], tuple(rep['wiring_order'])))
+    for key, what, _ in bad:
+      print('oracle: [%s] %s' % (key, what))
+    if not bad:
+      print('oracle: holds')
+    return 1 if bad else 0
   if 'key' in rep and 'universe' not in rep:
     env.boot()
     from carbon.hashing import carbonHash
